@@ -13,6 +13,11 @@ Proof. vm_compute. reflexivity. Qed.
 Lemma gen_save_order : gen_save_order_ok = true.
 Proof. vm_compute. reflexivity. Qed.
 
+(* the round-trip premise `zd (zc b) = Some b` of C07_file_roundtrip is about an UNBOUNDED decoder: the
+   loader must not put a size or ratio cap on the payload the saver wrote *)
+Lemma gen_load_unbounded : gen_load_decompress_unbounded = true.
+Proof. reflexivity. Qed.
+
 (* both save functions: only temp-file steps, the temp file complete, then one rename as the last step *)
 Lemma gen_steps_safe : steps_safe gen_save_steps_v3 = true /\ steps_safe gen_save_steps_quant = true.
 Proof. split; vm_compute; reflexivity. Qed.
